@@ -33,6 +33,8 @@ struct Seen {
 	forwarded_msat: u64,
 	up_fail_at: Option<u32>,
 	up_fulfil_at: Option<u32>,
+	up_fulfils: u32,
+	up_fails: u32,
 	sent: bool,
 	failed: bool,
 	node1_txids: Vec<bitcoin::Txid>,
@@ -56,9 +58,11 @@ fn absorb(sim: &mut Sim, rep: &mut Report, seen: &mut Seen, c01: usize, c12: usi
 			Obs::Emit(e) if e.chan == Some(c01) && e.from == 1 && !e.retrans => match &e.wire {
 				Wire::Fail(_) | Wire::FailMal(_) => {
 					seen.up_fail_at.get_or_insert(h);
+					seen.up_fails += 1;
 				},
 				Wire::Fulfill(_) => {
 					seen.up_fulfil_at.get_or_insert(h);
+					seen.up_fulfils += 1;
 				},
 				_ => {},
 			},
@@ -372,6 +376,12 @@ pub fn phase(sim: &mut Sim, rng: &mut Rng, rep: &mut Report, only_kind: Option<u
 					rep.count("c08_d4_onchain_settlements_judged");
 					if !seen.sent || seen.failed || seen.c01_closed.is_some() {
 						sim.raised.push(("C08".into(), "D4-settlement-passed-upstream".into(), "a downstream claim confirmed on chain before the downstream expiry was not passed upstream".into(), detail.clone()));
+					} else if two_parts {
+						// both parts were claimed downstream (one transaction, or two in the same block): both are owed upstream
+						rep.count("c08_d4_two_part_onchain_settlements_judged");
+						if seen.up_fulfils < 2 || seen.up_fails > 0 {
+							sim.raised.push(("C08".into(), "D4-settlement-passed-upstream".into(), "of two HTLCs with one payment hash claimed downstream on chain, not both were claimed upstream".into(), detail.clone()));
+						}
 					}
 				},
 				_ => rep.count("c08_d4_onchain_settlements_too_late_or_unconfirmed"),
